@@ -139,14 +139,29 @@ def compdb_check(cdir):
     return res
 
 
-def build_module(name, sources, config="ndebug", defines=(), incs=None):
+def _force_inline(path, names):
+    """mark the named file-local functions of a linked .ll alwaysinline (and drop -O0's noinline, which is the only thing the
+    always-inline pass would trip over): used to analyse a function together with the static helpers it was split into"""
+    import re
+    txt = open(path).read()
+    hit = 0
+    for n in names:
+        pat = re.compile(r'^(define internal [^\n]*@%s\([^\n]*\))( (?:local_unnamed_addr |unnamed_addr )?)(#\d+)' % re.escape(n), re.M)
+        txt, k = pat.subn(lambda m: m.group(1) + m.group(2) + "alwaysinline " + m.group(3), txt)
+        hit += k
+    if hit != len(names): raise AnalysisBroken("inline plan: %d of %d helper definitions found" % (hit, len(names)))
+    txt = re.sub(r'^(attributes #\d+ = \{[^\n]*?) noinline ', r'\1 ', txt, flags=re.M)
+    open(path, "w").write(txt)
+
+
+def build_module(name, sources, config="ndebug", defines=(), incs=None, inline=()):
     """Compile `sources` (paths) under `config`, link, mem2reg+sroa, extract facts.
-    Returns the path of the facts JSON.  `name` is the cache entry name."""
+    Returns the path of the facts JSON.  `name` is the cache entry name.  `inline`: file-local functions to inline into their callers first."""
     ensure_irfacts()
     th = tree_hash()
     cdir = os.path.join(CACHE, th)
     os.makedirs(os.path.join(CACHE, "tmp"), exist_ok=True)
-    key = hashlib.sha256(repr((name, sorted(sources), config, sorted(defines))).encode()).hexdigest()[:10]
+    key = hashlib.sha256(repr((name, sorted(sources), config, sorted(defines)) + ((tuple(sorted(inline)),) if inline else ())).encode()).hexdigest()[:10]
     mdir = os.path.join(cdir, "%s-%s-%s" % (name, config, key))
     facts = os.path.join(mdir, "all.json")
     if os.path.exists(facts):
@@ -168,7 +183,8 @@ def build_module(name, sources, config="ndebug", defines=(), incs=None):
             rc, so, se = _run([LLVM_LINK, "-S"] + lls + ["-o", os.path.join(tmp, "all.ll")])
             if rc != 0:
                 raise AnalysisBroken("llvm-link failed:\n" + se[-2000:])
-            rc, so, se = _run([OPT, "-passes=function(mem2reg,sroa)", "-S", os.path.join(tmp, "all.ll"), "-o", os.path.join(tmp, "all.m.ll")])
+            if inline: _force_inline(os.path.join(tmp, "all.ll"), sorted(inline))
+            rc, so, se = _run([OPT, "-passes=" + ("always-inline,function(mem2reg,sroa,jump-threading,instsimplify)" if inline else "function(mem2reg,sroa)"), "-S", os.path.join(tmp, "all.ll"), "-o", os.path.join(tmp, "all.m.ll")])
             if rc != 0:
                 raise AnalysisBroken("opt failed:\n" + se[-2000:])
             with open(os.path.join(tmp, "all.json"), "w") as f:
@@ -196,12 +212,12 @@ def witness_sources(which=("wrap",)):
     return out
 
 
-def lib_facts(config="ndebug", witness=("wrap",)):
+def lib_facts(config="ndebug", witness=("wrap",), inline=()):
     """facts of the linked library (17 units today) plus the macro-wrapper witness units"""
     units = library_units()
     if len(units) < 17:
         raise AnalysisBroken("only %d library units found under %s (17 confirmed by hand)" % (len(units), SRC))
-    facts = build_module("lib", units + witness_sources(witness), config)
+    facts = build_module("lib", units + witness_sources(witness), config, inline=tuple(inline))
     compdb_check(os.path.dirname(os.path.dirname(facts)))
     return facts
 
